@@ -773,7 +773,10 @@ func (c *c06Check) runHist(seed, run uint64, t *tape.Tape, s *C06Stats, lines *[
 			src = fmt.Sprintf("(%s%s)", opName, recv.name)
 		case 3: // index / slice
 			opKind, opName = "index", "at"
-			switch sub(3, 2, 1, 1) {
+			switch sub(3, 2, 1, 1, 2) {
+			case 4:
+				// looked up by one of its own keys (for a map also the array/object keys it has)
+				src = fmt.Sprintf("%s[%s.keys[%d]]", recv.name, recv.name, t.Intn(4))
 			case 0:
 				src = fmt.Sprintf("%s[%s]", recv.name, arg())
 			case 1:
